@@ -8,6 +8,9 @@
          [--pad N]                emit N bytes of comment lines before the answer
          [--no-read]              do not read stdin; emit the padding, no status line, exit 0
          [--print-file FILE]      read stdin to the end, then print FILE verbatim as the reply
+         [--partial]              print a PARTIAL model: variables are left out (greedily, from the largest index
+                                  down) as long as every clause keeps a true literal - a correct reply that leaves
+                                  don't-care variables unassigned, as some solvers do
    Exit code 10 (satisfiable) / 20 (unsatisfiable) / 1 (ill-formed instance, after `c error`). *)
 
 let n_of_int (n : int) : BinNums.coq_N = if n = 0 then BinNums.N0 else BinNums.Npos (Dcommon.pos_of_int n)
@@ -42,7 +45,7 @@ let read_file p = try let ic = open_in_bin p in let s = read_all ic in close_in 
 
 let () =
   let dump = ref None and fail_at = ref 0 and kind = ref "" and counter = ref None in
-  let pad = ref 0 and no_read = ref false and print_file = ref None in
+  let pad = ref 0 and no_read = ref false and print_file = ref None and partial = ref false in
   let rec opts = function
     | "--dump" :: f :: r -> dump := Some f; opts r
     | "--fail-at" :: k :: r -> fail_at := int_of_string k; opts r
@@ -50,6 +53,7 @@ let () =
     | "--counter" :: f :: r -> counter := Some f; opts r
     | "--pad" :: n :: r -> pad := int_of_string n; opts r
     | "--no-read" :: r -> no_read := true; opts r
+    | "--partial" :: r -> partial := true; opts r
     | "--print-file" :: f :: r -> print_file := Some f; opts r
     | _ :: r -> opts r
     | [] -> ()
@@ -94,6 +98,23 @@ let () =
       print_string "c error: ill-formed instance\n"; flush stdout; exit 1
   | Some (nv, cls) ->
       let r = Dpll.solve_n nv cls [] in
+      let r =
+        match r with
+        | Some m when !partial ->
+            (* three-valued check: a clause is satisfied iff one of its literals is assigned true *)
+            let a = Array.of_list m in
+            let value v = if v >= 1 && v <= Array.length a then a.(v - 1) else None in
+            let lit_true l = let z = Dcommon.int_of_z l in
+              if z > 0 then value z = Some true else if z < 0 then value (- z) = Some false else false in
+            let all_sat () = Stdlib.List.for_all (fun c -> Stdlib.List.exists lit_true c) cls in
+            for v = Array.length a downto 1 do
+              match a.(v - 1) with
+              | Some _ as old -> a.(v - 1) <- None; if not (all_sat ()) then a.(v - 1) <- old
+              | None -> ()
+            done;
+            Some (Array.to_list a)
+        | _ -> r
+      in
       let text = string_of_bytes (Dimacs.print_reply r) in
       let code = match r with Some _ -> 10 | None -> 20 in
       if not misbehave then (print_string text; flush stdout; exit code)
